@@ -159,6 +159,42 @@ pub fn rec_lists(a: &Args, out: &mut Out) {
                     let (o, _, _) = decode_obs(&g, num, &path, is_str);
                     out.emit(json!({"ev": "ListHostile", "number": num, "path": path_s, "how": "count-above-cap", "frame": bytes_json(&g), "out": o}));
                 }
+                // a count above the capacity WITH a body that really holds that many elements (and the fields after the list)
+                if let (Some(eoff), Some(ebits)) = (l["elems_off"].as_u64(), l["elem_bits"].as_u64()) {
+                    let (eoff, ebits) = (eoff as usize, ebits as usize);
+                    let total_bits = (f.len() - 6) * 8;
+                    let bit = |k: usize| -> u8 { let g = 24 + k; (f[g / 8] >> (7 - g % 8)) & 1 };
+                    let tail_start = eoff + cap * ebits;
+                    if ebits > 0 && cap > 0 && tail_start <= total_bits {
+                        for c in (cap + 1)..(1usize << cbits) {
+                            let need = eoff + c * ebits + (total_bits - tail_start);
+                            if need > 1023 * 8 {
+                                break;
+                            }
+                            let mut bw = crate::drv_decode::BitW::new();
+                            for k in 0..eoff {
+                                let v = if k >= coff && k < coff + cbits { ((c >> (cbits - 1 - (k - coff))) & 1) as u8 } else { bit(k) };
+                                bw.put(v as u64, 1);
+                            }
+                            for e in 0..c {
+                                let src = eoff + (e % cap) * ebits;
+                                for k in 0..ebits {
+                                    bw.put(bit(src + k) as u64, 1);
+                                }
+                            }
+                            for k in tail_start..total_bits {
+                                bw.put(bit(k) as u64, 1);
+                            }
+                            let g = mk_frame(&bw.bytes(), 0);
+                            let (o, _, _) = decode_obs(&g, num, &path, is_str);
+                            out.emit(json!({"ev": "ListHostile", "number": num, "path": path_s, "how": "count-above-cap-with-body", "frame": bytes_json(&g), "out": o}));
+                            if c > cap + 40 && c % 16 != 0 {
+                                // sample the long tail of 8-bit counters
+                                continue;
+                            }
+                        }
+                    }
+                }
                 // every truncation point of the full-length frame (re-framed with correct length and CRC)
                 let plen = f.len() - 6;
                 for cut in 2..plen {
